@@ -104,10 +104,10 @@ def main(argv):
         print('UNDECIDED property=%s cannot read goals: %s' % (pid, ex)); return 2
     goals = [g for g in goals if tier == 'thorough' or g['tier'] == 'quick']
     ok_canary, canary_info = canary(budget)
+    from . import par
     nproc = min(16, max(1, len(goals)))
-    ctx = multiprocessing.get_context('fork')
-    with ctx.Pool(nproc) as pool:
-        results = pool.map(run_goal, [(g, budget) for g in goals], chunksize=1)
+    os.environ['LPV_JOBS'] = str(max(2, min(8, 32 // nproc)))
+    results = par.pmap(run_goal, [(g, budget) for g in goals], nproc)
     from . import report
     return report.finish(pid, tier, seed, goals, meta, results, ok_canary, canary_info, t0)
 
